@@ -21,8 +21,9 @@ MANIFEST = {
             "Peer selection, helper arithmetic and the handlers are tied to the Go code by running both on all small multisets of "
             "peer tips / random peer sets and on random responder chains (cache sizes 1..515, removed blocks, heights near 2^32, "
             "malformed requests); every implementation answer is also checked against the declarative oracle.",
-    "note": "Three genuine defects repaired in /repo (most-frequent-ID loop never updated max; uint32 overflow of height+103 in the "
-            "GetBlocksFromID handler; fast-sync restore overwrote the saved original blocks). The convergence model is tied to fast_sync.go / block_sync.go / download.go by "
+    "note": "Five genuine defects repaired in /repo (most-frequent-ID loop never updated max; uint32 overflow of height+103 in the "
+            "GetBlocksFromID handler; fast-sync restore overwrote the saved original blocks; downloader hung / grew without bound on "
+            "empty or repeated answers; stale temp blocks broke a later fast-sync restore). The convergence model is tied to fast_sync.go / block_sync.go / download.go by "
             "running the real Syncer of one node against a scripted peer over loopback libp2p (honest, truncated, corrupted, lying "
             "about the common block) and comparing chain, ban, temp blocks and outcome with Sync.Converge. Trusted: Coq kernel + vm_compute, fidelity of the hand "
             "models as sampled, Go harness, Python glue.",
@@ -94,8 +95,8 @@ def sync_term(r):
     pairs = lambda l: clist(l, lambda x: "(%d, %d)" % tuple(x))
     obs = "(%s, %s, %s, %s, %s, %s)" % (clist(r["after"]), cbool(r["banned"]), cbool(bool(r["err"])), pairs(r["tempafter"]),
                                        cbool(r["lowdeleted"]), cbool(r["dbequal"]))
-    return "(%s, %s, %d, %s, %s, %d, %s, %d, %d, %s)" % (
-        cbool(r["kind"] == "fast"), clist(r["before"]), r["finalized"], common, clist(r["delivered"]), e, pairs(r["links"]),
+    return "(%s, %s, %s, %d, %s, %s, %d, %s, %d, %d, %s)" % (
+        cbool(r["kind"] == "fast"), clist(r["before"]), pairs(r.get("tempbefore") or []), r["finalized"], common, clist(r["delivered"]), e, pairs(r["links"]),
         r["targeth"], 2 * r["spec"]["n"], obs)
 
 
@@ -150,7 +151,7 @@ def evaluate(ck, recs):
         elif r.get("hang") or r.get("panic"):
             ck.count()
             ck.fail_case("c19:sync:%s" % ("hang" if r.get("hang") else "panic"),
-                         "Syncer.Sync %s on %s" % ("did not return within 30 s" if r.get("hang") else "panicked: " + r["panic"],
+                         "Syncer.Sync %s on %s" % ("did not return within 12 s (peer answers: %s)" % (r["spec"].get("stall") or "-") if r.get("hang") else "panicked: " + r["panic"],
                                                    json.dumps(r["spec"])), r, corr="two-node sync run")
         else:
             syncs.append(r)
@@ -159,8 +160,9 @@ def evaluate(ck, recs):
         for r, code in zip(syncs, rsy):
             ck.count()
             sp = r["spec"]
-            ck.nontrivial(("sync", r["kind"], sp["n"], sp["prefix"], sp["own"], sp["peer"], sp["full"], sp["hcb"], sp["corrupt"],
-                           sp["corruptkind"] if sp["corrupt"] >= 0 else "", sp["errafter"]))
+            ck.nontrivial(("sync", r.get("phase", 1), r["kind"], sp["n"], sp["prefix"], sp["own"], sp["peer"], sp["full"], sp["hcb"],
+                           sp["corrupt"], sp["corruptkind"] if sp["corrupt"] >= 0 else "", sp["errafter"], sp.get("stall", ""),
+                           sp.get("own2", 0), sp.get("corrupt2", -1), sp.get("errafter2", -1), bool(r.get("tempbefore"))))
             if code != 0:
                 add_failure(ck, "sync", code,
                             "sync run: node did not end on the honest better peer's chain / failed fast sync did not restore the "
